@@ -10,6 +10,7 @@ service was added and not removed since."""
 import absint
 from absint import Interp, Order, Cell, MapObj, Unmodelled, mk_option, UNIT
 from facts import strip_generics, last_seg, ty_head
+from analysis import cname
 
 
 STR_OTHER = ('replace', 'replacen', 'to_lowercase', 'to_uppercase', 'to_ascii_lowercase', 'to_ascii_uppercase', 'trim', 'trim_start', 'trim_end', 'trim_matches',
@@ -28,6 +29,24 @@ def string_op(interp, name, args, t, body):
     return None
 
 
+
+def name_roles(facts):
+    """the crate's URI builder and key hash, by role: (&str, &str) -> String, and (one argument) -> u64 reaching a std hasher"""
+    if hasattr(facts, '_name_roles'):
+        return facts._name_roles
+    uri, hsh = set(), set()
+    for b in facts.bodies.values():
+        if b.crate != 'datacake_rpc' or b.d['promoted'] or b.kind != 'fn' or b.cfg is None:
+            continue
+        if b.argc == 2 and b.local_ty(1) == '&str' and b.local_ty(2) == '&str' and b.local_ty(0) == 'alloc::string::String':
+            uri.add(b.name)
+        if b.argc == 1 and b.local_ty(0) == 'u64':
+            cs = [cname(t) or '' for _b, t in b.calls()]
+            if any(c.endswith('Hasher::finish') or c.endswith('BuildHasher::hash_one') or c.endswith('::hash_one') for c in cs):
+                hsh.add(b.name)
+    facts._name_roles = (uri, hsh)
+    return facts._name_roles
+
 def hook(interp, name, args, t, body):
     seg = last_seg(name)
     r_ = string_op(interp, name, args, t, body)
@@ -37,7 +56,7 @@ def hook(interp, name, args, t, body):
         if seg in ('lock', 'write', 'read', 'upgradable_read', 'try_lock', 'try_write', 'try_read'):
             inner = interp.deref_all(args[0])
             return ('ref', interp.lock_cells.setdefault(id(inner), Cell(inner))) if False else args[0]
-    if name.endswith('::hash') and name.startswith('datacake_rpc::') and args:
+    if name.startswith('datacake_rpc::') and args and (name.endswith('::hash') or name in name_roles(interp.facts)[1]):
         a = interp.deref_all(args[0])
         if a is not None and a[0] == 'key':
             return ('key', 'h:' + a[1])
@@ -210,12 +229,12 @@ def key_hook(interp, name, args, t, body):
         return ('ref', Cell(('key', 'svc')))
     if name.endswith('::Handler::path'):
         return ('ref', Cell(('key', 'path')))
-    if name.startswith('datacake_rpc::') and seg == 'to_uri_path' and len(args) == 2:
+    if name.startswith('datacake_rpc::') and (seg == 'to_uri_path' or name in name_roles(interp.facts)[0]) and len(args) == 2:
         a, b = interp.deref_all(args[0]), interp.deref_all(args[1])
         if a is None or b is None or a[0] != 'key' or b[0] != 'key':
             raise Unmodelled('to_uri_path of something that is not a name')
         return ('key', 'U(%s,%s)' % (a[1], b[1]))
-    if name.startswith('datacake_rpc::') and seg == 'hash' and args:
+    if name.startswith('datacake_rpc::') and (seg == 'hash' or name in name_roles(interp.facts)[1]) and args:
         a = interp.deref_all(args[0])
         if a is None or a[0] != 'key':
             raise Unmodelled('hash of something that is not a name')
